@@ -47,6 +47,8 @@ def search(chk, broken):
     n = 25 if (chk.tier == 'quick' and not broken) else 1500
     evals = 0
     for it in range(n):
+        if chk.over():
+            break
         cfg = sg.gen_config(rng, 0.8)
         for k in ('cMinimumVelocity', 'cMaximumDrop', 'cMinimumAltitude', 'cGravityConstant'):
             cfg.pop(k, None)
